@@ -292,6 +292,31 @@ func genMetric(r *rand.Rand, mode string) metricIn {
 		in.Recs = genMetricRecs(r, r.Intn(14), span, true)
 		in.Expr = *genRange(r, 1, true)
 		in.Evals = genEvals(r, span)
+	case "prec":
+		ops := []string{"or", "and", "unless", "eq", "neq", "gt", "gte", "lt", "lte", "add", "sub", "mul", "div", "mod", "pow"}
+		vals := [][]int{{1, 1}, {2, 1}, {3, 1}, {1, 2}, {0, 1}, {5, 1}, {3, 2}}
+		n := 2 + r.Intn(4)
+		f := &flatIn{}
+		for i := 0; i < n; i++ {
+			f.Operands = append(f.Operands, vals[r.Intn(len(vals))])
+			if i > 0 {
+				f.Ops = append(f.Ops, ops[r.Intn(len(ops))])
+			}
+		}
+		if n >= 3 && r.Intn(2) == 0 {
+			a := 1 + r.Intn(n-1)
+			b := a + 1 + r.Intn(n-a)
+			if !(a == 1 && b == n) {
+				f.Open, f.Close = a, b
+			}
+		}
+		in.Flat = f
+		in.Recs = []MemRec{}
+		in.Expr = *litExpr([]int{0, 1})
+		in.Evals = []evalIn{{Start: mBase, End: mBase, Step: 0}}
+		if r.Intn(4) == 0 {
+			in.Evals = append(in.Evals, evalIn{Start: mBase, End: mBase + 4, Step: 2})
+		}
 	case "vecagg":
 		in.Recs, in.Expr, in.Evals = genVecAggCase(r)
 	case "binop":
